@@ -30,11 +30,12 @@ ItemClasses == {
   "F_same_pl",      \* failed (known reason, message) although the item carries a well-formed payload of the requested operation
   "P_same_pl",      \* pending, with such a payload
   "U_same_pl",      \* unknown status, with such a payload
+  "F_zero_pl",      \* failed without operation although a payload follows (it has no type: the client has nothing to read it with and lets it pass)
   "P_same_notsupp", \* pending / unknown status with the reason Operation Not Supported: the reason of a server that lacks the operation,
   "U_same_notsupp"  \* under a status that is not Failed - an error like any other (for Dial in particular: no fallback to 1.0)
 }
 Status(c) == CASE c \in {"S_same_pl", "S_same_nopl", "S_same_foreign", "S_other_pl", "S_other_nopl", "S_zero_nopl"} -> "Success"
-               [] c \in {"F_same_known", "F_same_unknown", "F_same_noreason", "F_other_known", "F_zero_known", "F_same_pl"} -> "Failed"
+               [] c \in {"F_same_known", "F_same_unknown", "F_same_noreason", "F_other_known", "F_zero_known", "F_same_pl", "F_zero_pl"} -> "Failed"
                [] c \in {"P_same", "P_same_pl", "P_same_notsupp"} -> "Pending"
                [] OTHER -> "Unknown"
 GoodC(c) == c = "S_same_pl"
